@@ -10,6 +10,7 @@ use std::os::unix::ffi::{OsStrExt, OsStringExt};
 use std::os::unix::process::ExitStatusExt;
 use std::path::{Path, PathBuf};
 use std::process::Command;
+use verif_harness::fsnap;
 use verif_harness::tomlgen::*;
 use verif_harness::util::*;
 
@@ -51,6 +52,8 @@ struct Problem {
     sig: String,
     detail: String,
 }
+
+thread_local! { static LAST_OUTPUTS: std::cell::RefCell<Option<fsnap::Snap>> = const { std::cell::RefCell::new(None) }; }
 
 fn run_case(case: &Value, variation: u64, vbp: &Path, scratch: &Path) -> Vec<Problem> {
     let mut r = fastrand::Rng::with_seed(seed().wrapping_mul(1000003).wrapping_add(variation).wrapping_add(hash(&case.to_string())));
@@ -217,6 +220,12 @@ fn run_case(case: &Value, variation: u64, vbp: &Path, scratch: &Path) -> Vec<Pro
     let count = |m: &str| fs::read_to_string(vout.join(format!("{m}.called"))).map(|s| s.lines().count()).unwrap_or(0);
     let (n_detect, n_build, n_err) = (count("detect"), count("build"), count("on_error"));
 
+    // C20: the bytes this run left behind (layers directory and plan file), relative to its temp root
+    {
+        let mut snap = fsnap::snapshot(&layers);
+        if let Ok(b) = fs::read(&plan_path) { snap.insert("<plan>".into(), fsnap::Node::File { mode: 0, hex: hex(&b) }); }
+        LAST_OUTPUTS.with(|l| *l.borrow_mut() = Some(snap));
+    }
     let mut problems = vec![];
     if consulted.contains("t_variant") && c("t_variant") == "nonutf8" {
         // C06: a value that cannot be represented must be a reported error, never dropped
@@ -290,11 +299,11 @@ fn run_case(case: &Value, variation: u64, vbp: &Path, scratch: &Path) -> Vec<Pro
                     (_, None) => false,
                     ("launch.toml", Some(b)) => String::from_utf8_lossy(b).parse::<toml::Table>().ok().is_some_and(|t| {
                         let procs = t.get("processes").and_then(|p| p.as_array()).cloned().unwrap_or_default();
-                        if c("launch") == "empty" { procs.is_empty() && !String::from_utf8_lossy(b).contains("stale") } else { procs.len() == 1 && procs[0].get("type").and_then(|x| x.as_str()) == Some("web") }
+                        if c("launch") == "empty" { procs.is_empty() && !String::from_utf8_lossy(b).contains("stale") } else { procs.len() == 3 && procs[0].get("type").and_then(|x| x.as_str()) == Some("web") }
                     }),
                     ("store.toml", Some(b)) => String::from_utf8_lossy(b).parse::<toml::Table>().ok().is_some_and(|t| {
                         let md = t.get("metadata").and_then(|m| m.as_table()).cloned().unwrap_or_default();
-                        if c("storeout") == "empty" { md.is_empty() } else { md.len() == 1 && md.get("written-by").and_then(|x| x.as_str()) == Some("vbp") }
+                        if c("storeout") == "empty" { md.is_empty() } else { md.len() == 7 && md.get("written-by").and_then(|x| x.as_str()) == Some("vbp") }
                     }),
                     (n, Some(b)) => {
                         let (kind, f) = n.split_once(".sbom.").unwrap();
@@ -353,6 +362,34 @@ fn main() {
     fs::create_dir_all(&scratch).unwrap();
     let vbp = std::env::current_exe().unwrap().parent().unwrap().join("vbp");
     let raw: Vec<Value> = if single { vec![serde_json::from_str(&fs::read_to_string(&input).unwrap()).unwrap()] } else { read_tlc_tagged(&input, "RP") };
+    if args.get(2).map(String::as_str) == Some("--det") {
+        // C20: every path that writes outputs, twice with identical inputs in two fresh processes
+        // and temp roots (every fifth pair with the clock advanced in between)
+        let cases: Vec<&Value> = raw.iter().filter(|c| matches!(c["out"]["exit"].as_str(), Some("0" | "100"))).collect();
+        let results = par_map(&cases, threads(), |i, case| {
+            let _ = run_case(case, 0, &vbp, &scratch);
+            let a = LAST_OUTPUTS.with(|l| l.borrow_mut().take());
+            if i % 50 == 0 { std::thread::sleep(std::time::Duration::from_millis(1100)); }
+            let _ = run_case(case, 0, &vbp, &scratch);
+            let b = LAST_OUTPUTS.with(|l| l.borrow_mut().take());
+            match (a, b) {
+                (Some(a), Some(b)) if a == b => (a.len(), None),
+                (Some(a), Some(b)) => (a.len(), Some(format!("{:?}", fsnap::diff(&a, &b)))),
+                _ => (0, Some("a run left no outputs".to_string())),
+            }
+        });
+        let mut s = Summary::default();
+        s.evaluations = cases.len() * 2;
+        for (case, (n, d)) in cases.iter().zip(results) {
+            if n >= 2 { s.distinct_nontrivial += 1; }
+            if let Some(d) = d {
+                s.mismatches.push(Mismatch { signature: format!("outputs of exe={} differ between two identical runs", case["cfg"]["exe"].as_str().unwrap()), detail: d.chars().take(900).collect(), case: (*case).clone() });
+            }
+        }
+        s.extra.insert("pairs".into(), json!(cases.len()));
+        s.print();
+        return;
+    }
     let jobs: Vec<(usize, u64)> = (0..raw.len()).flat_map(|i| (0..variations).map(move |k| (i, k))).collect();
     let results = par_map(&jobs, threads(), |_, (i, k)| {
         let case = if single { &raw[*i]["case"] } else { &raw[*i] };
